@@ -120,7 +120,11 @@ Proof.
     + apply filter_In in H2. apply (Hf a H j); tauto.
     + destruct (Hd j H) as [A B]. split; auto. intro X. apply filter_In in X. tauto.
   - (* UndeployEnd *)
-    destruct (snap s); [|discriminate]. inversion H; subst. constructor; auto.
+    destruct (snap s); [|discriminate]. inversion H; subst; clear H.
+    constructor; simpl; unfold complete; simpl; intros; try contradiction; auto.
+    destruct (Hd j H) as [A B]. auto.
+  - (* PopMissing *)
+    destruct (mem j (sched s)); [discriminate|]. inversion H; subst. constructor; auto.
 Qed.
 
 Lemma inv_accept : forall tr s s', Inv s -> accept s tr = Some s' -> Inv s'.
